@@ -73,3 +73,65 @@ def family(name, gen, K, max_cases=None):
         c["family"] = name
     st["family"] = name
     return cases, st
+
+
+# ------------------------------------------------------------------ impl pipeline
+class ImplRun:
+    """one execution of the real code on a scenario: setup -> optimize -> extract_output"""
+
+    def __init__(self, scn, solver="SCIPY", want_output=True):
+        from mc import impl
+        self.scn = scn
+        self.status = None      # 'optimal' | 'not successful' | 'inaccurate' | 'exception'
+        self.error = None
+        self.site = None
+        self.stage = None
+        self.value = None
+        self.res = None
+        self.out = None
+        try:
+            self.stage = "setup"
+            self.portf, self.tg, self.prices, self.op = impl.setup(scn)
+            self.stage = "optimize"
+            self.res = impl.solve(self.op, solver)
+            if isinstance(self.res, str):
+                self.status = self.res
+                return
+            self.status = "optimal"
+            self.value = float(self.res.value)
+            if want_output:
+                self.stage = "extract_output"
+                import eaopack as eao
+                self.out = eao.io.extract_output(self.portf, self.op, self.res, self.prices)
+        except Exception as e:
+            self.status = "exception"
+            self.error = short_exc(e)
+            self.site = exc_site()
+
+    def table(self):
+        """{(asset, node): array(T)} from the dispatch output, columns named by the documented rule"""
+        disp = self.out["dispatch"]
+        scn = self.scn
+        all_nodes = []
+        for a in scn["assets"]:
+            for n in asset_nodes(a):
+                if n not in all_nodes:
+                    all_nodes.append(n)
+        single = len(all_nodes) == 1
+        tab = {}
+        for a in scn["assets"]:
+            for n in asset_nodes(a):
+                col = a["name"] if single else "%s (%s)" % (a["name"], n)
+                if col in disp.columns:
+                    tab[(a["name"], n)] = np.asarray(disp[col].values, float)
+        return tab, all_nodes
+
+
+def asset_nodes(a):
+    if a["type"] == "ScaledAsset":
+        return asset_nodes(a["base_asset"])
+    return list(a["nodes"])
+
+
+def close(a, b, rel=1e-6, abs_=1e-7):
+    return abs(a - b) <= abs_ + rel * max(abs(a), abs(b))
